@@ -134,7 +134,7 @@ func keySet(rt *rapid.T, n int) []string {
 		}
 		return rapid.SliceOfNDistinct(rapid.SampledFrom(trickyKeys), n, n, rapid.ID[string]).Draw(rt, "keys")
 	}
-	return manyKeys[:n]
+	return append([]string{}, manyKeys[:n]...) // a copy: callers insert into it
 }
 
 func genObjExpr(rt *rapid.T, depth int) *tw.Expr {
